@@ -134,12 +134,18 @@ def run_schedule(tmpl, opa, opb, plan, shared=True, opc=None):
     path = tmpl.fresh()
     try:
         sa = _load(GitStore.open_from_path(path))
-        sb = sa if shared else _load(GitStore.open_from_path(path))
+        late = shared == "late"        # B's process opens the collection only when its request arrives
+        sb = sa if shared is True else (None if late else _load(GitStore.open_from_path(path)))
         sc = sched.Scheduler(path, 2)
         flags = {}
+        holder = {}
+
+        def b_late():
+            holder["sb"] = _load(GitStore.open_from_path(path))
+            return make_op(holder["sb"], tmpl, opb, flags, "B")()
         with sc:
             ta = sc.spawn("A", make_op(sa, tmpl, opa, flags, "A"))
-            tb = sc.spawn("B", make_op(sb, tmpl, opb, flags, "B"))
+            tb = sc.spawn("B", b_late if late else make_op(sb, tmpl, opb, flags, "B"))
             for (w, n) in plan:
                 if n is None:
                     sc.finish(w)
@@ -163,7 +169,9 @@ def run_schedule(tmpl, opa, opb, plan, shared=True, opc=None):
             res["C"] = make_op(sa, tmpl, opc, flags, "C")()
         # what the long-lived store objects serve afterwards (must be the state on disk)
         views = []
-        for st in ([sa] if shared else [sa, sb]):
+        if late:
+            sb = holder.get("sb") or sa
+        for st in ([sa] if shared is True else [sa, sb]):
             try:
                 views.append(store_view(st, tmpl))
             except Exception as exc:
@@ -182,7 +190,8 @@ def run_schedule(tmpl, opa, opb, plan, shared=True, opc=None):
             lk = next((i for i in idx if sc.trace[i][1] == lockgate), idx[-1] + 1)
             if any(x == o and g in MUT for (x, g) in sc.trace[idx[0]:lk]):
                 phase = "check"
-        return {"kind": tmpl.kind, "shared": shared, "init": tmpl.init,
+        return {"kind": tmpl.kind, "shared": shared if isinstance(shared, bool) else False,
+                "lateopen": bool(late), "init": tmpl.init,
                 "ops": {"A": opa, "B": opb, "C": opc if opc is not None else {"t": "none", "n": "", "b": 0, "cond": 0}},
                 "res": res if "C" in res else dict(res, C="none"), "final": final,
                 "mid": mid if mid is not None else final,
